@@ -273,16 +273,16 @@ public:
         if (!only_hosts_) {
             return true;
         }
-        // We need that distance(first, last) >= 4
+        // We need that first + 3 <= last. Stop as soon as last is reached, 
+        // that way the address can never wrap around.
         address_type addr(first_);
         for (int i = 0; i < 3; ++i) {
-            // If there's overflow before the last iteration, we're done
-            if (Internals::increment(addr) && i != 2) {
+            if (addr == last_) {
                 return false;
             }
+            Internals::increment(addr);
         }
-        // If addr <= last, it's OK.
-        return addr < last_ || addr == last_;
+        return true;
     }
 private:
     address_type first_, last_;
